@@ -12731,13 +12731,16 @@ class TensorDictBase(MutableMapping):
             raise KeyError(
                 f"Flattening keys in tensordict causes keys {conflicts} to collide."
             )
-        # we will need to remove the empty tensordicts later on
-        root_keys = set(self.keys())
-        for leaf, leaf_flat in zip(all_leaves, all_leaves_flat):
-            self.rename_key_(leaf, leaf_flat)
-            if isinstance(leaf, str):
-                root_keys.discard(leaf)
-        self.exclude(*root_keys, inplace=True)
+        # Detach every leaf first, then drop what is left (the now leafless nested
+        # tensordicts), then write the leaves under their flat names. Renaming the leaves
+        # one at a time could overwrite a nested tensordict whose leaves had not been moved
+        # yet (eg {"a": {"b": x}, "a.b": {"c": y}}), and root-level leaves must be kept.
+        all_vals = [self.pop(leaf) for leaf in all_leaves]
+        self.exclude(*self.keys(), inplace=True)
+        for leaf_flat, val in zip(all_leaves_flat, all_vals):
+            self._set_str(
+                leaf_flat, val, inplace=False, validated=True, non_blocking=False
+            )
         return self
 
     @cache  # noqa: B019
